@@ -45,7 +45,7 @@ Definition locate_one_tol (ls : list label) (v : label) (tol : tolv) : res nat :
   match label_num v, mapM (fun x => match label_num x with Some q => Ok q | None => Err TypeError end) ls with
   | Some qv, Ok qs =>
       match map (fun q => Qabs.Qabs (q - qv)) qs with
-      | [] => Err ValueError
+      | [] => Err IndexError          (* an empty axis: nothing is near *)
       | d0 :: t =>
           let m := argmin_q t 1 0 d0 in
           match tol with
